@@ -987,7 +987,3 @@ func (bc *boundsClient) fieldInvariants(st *State, br *Term) {
 	want := mk("bin", "+", types.Typ[types.Int], three, tConst("2", nil))
 	st.setFact(tEq(rb, want), true)
 }
-
-func init() {
-	checks["BOUNDS"] = func(p *Program, r *Report) { checkBounds(p, r) }
-}
